@@ -112,7 +112,7 @@ def index_clean_elements(res, tree, x, prefixes, m, errors, tag):
 
 class C17(Prop):
     ID = "C17"
-    QUICK = 700
+    QUICK = 1200
     THOROUGH = 16000
     RULE = ("case = (draft, schema, 3 drawn + <= 24 schema-derived instances, an arrival order); for every instance "
             "that yields errors, ErrorTree is built from the errors in generation order, reversed, and in the drawn "
